@@ -904,6 +904,12 @@ SILENT = [
            more=[(ABS, "        self.producer = None\n        if self.connected and self.disconnecting:\n            self.startWriting()\n",
                   "        self._forgetProducer()\n        if self.connected and self.disconnecting:\n            self.startWriting()\n"),
                  (ABS, "    def unregisterProducer(self):\n", "    def _forgetProducer(self):\n        taken, self.producer = self.producer, None\n        return taken\n\n    def unregisterProducer(self):\n")]),
+    Silent("writesequence-queueing-in-a-helper-the-normaliser-does-not-inline", ABS,
+           "        self._tempDataBuffer.extend(iovec)\n        for i in iovec:\n            self._tempDataLen += len(i)\n        self._maybePauseProducer()\n        self.startWriting()\n",
+           "        self._queue(iovec)\n        self._maybePauseProducer()\n        self.startWriting()\n",
+           more=[(ABS, "    def writeSequence(self, iovec: Iterable[bytes]) -> None:\n",
+                  "    def _queue(self, chunks):\n        self._tempDataBuffer.extend(chunks)\n        for chunk in chunks:\n            self._tempDataLen += len(chunk)\n        else:\n            return\n\n"
+                  "    def writeSequence(self, iovec: Iterable[bytes]) -> None:\n")]),
     Silent("unregister-guard-nested", ABS, "        if self.connected and self.disconnecting:\n            self.startWriting()\n\n\n@implementer(interfaces.ILoggingContext)",
            "        if self.connected:\n            if self.disconnecting:\n                self.startWriting()\n\n\n@implementer(interfaces.ILoggingContext)"),
 ]
